@@ -76,10 +76,13 @@ class C18(Property):
                     top_named = [y for y in self.top_level_leaves(opts)]
                     # fallback_to_usage turns any failure on an EMPTY line into the usage text: adding the item to an
                     # empty line changes that premise, not the variable's meaning -- no relation is claimed there
-                    if x in top_named and not (opts.get("fallback_to_usage") and not base):
+                    # (there only one direction is claimed: when the line holding the item is ACCEPTED, the empty line with the
+                    # variable set is accepted with the same value -- the parser succeeds, so the usage fallback does not apply)
+                    ftu = bool(opts.get("fallback_to_usage") and not base)
+                    if x in top_named:
                         cases.append(Case(gid + "e", opts, base, env=env2 + [(var, val)],
                                           unset=[e for e in all_env if e not in [a for a, _ in env2] and e != var] + UNDECLARED,
-                                          tags={"role": "envset", "group": gid, "var": var, "val": val}))
+                                          tags={"role": "envset", "group": gid, "var": var, "val": val, "ftu": ftu}))
                         cases.append(Case(gid + "l", opts, [key + b"=" + val] + base, env=env2,
                                           unset=[e for e in all_env if e not in [a for a, _ in env2]] + UNDECLARED,
                                           tags={"role": "lineset", "group": gid, "var": var, "val": val}))
@@ -135,7 +138,10 @@ class C18(Property):
                 e, l = roles["envset"][0], roles["lineset"][0]
                 dist["env=line"] = dist.get("env=line", 0) + 1
                 nontrivial.append(e.line())
-                if not common.same_outcome(impl.get(e.id), impl.get(l.id)):
+                if e.tags.get("ftu") and compare.impl_class(impl.get(l.id)) != "OK":
+                    dist["env=line skipped (empty line under fallback_to_usage, line with the item not accepted)"] = \
+                        dist.get("env=line skipped (empty line under fallback_to_usage, line with the item not accepted)", 0) + 1
+                elif not common.same_outcome(impl.get(e.id), impl.get(l.id)):
                     out.append(Finding("violation", e, "an absent argument with %r=%r in the environment does not behave like the same "
                                                        "value given once on the line: %s  vs  %s" % (e.tags["var"], e.tags["val"],
                                                                                                      common.show(impl.get(e.id)),
